@@ -148,5 +148,16 @@ if __name__ == '__main__':
             cotlog, lg = run_loggrad(j['ag'], j['idx'])
             out.append({'runs': runs, 'cotlog': cotlog, 'loggrad': lg})
         else:
-            out.append({'runs': run_fx(j['ag'], j['idx'], j['tier'])})
+            rec = {'runs': run_fx(j['ag'], j['idx'], j['tier'])}
+            if j.get('lg'):
+                # Log- and Real-semiring gradients of a recursive grid grammar with scalar start symbol, in this interpreter
+                from harness.props import c03
+                rec['cotlog'] = [1]
+                rec['loggrad'] = []
+                for m in METHODS[:2]:
+                    for kind in ('log', 'real'):
+                        r = c03.one(j['ag'], kind, m, torch.float64, [1], fx=True, tol=1e-8)
+                        r['tag'] = r['tag'] + [LEVEL, 'grad']
+                        rec['loggrad'].append(r)
+            out.append(rec)
     json.dump(out, open(sys.argv[2], 'w'))
